@@ -2,6 +2,7 @@ import BertE.Gen.Admin
 import BertE.Lemmas.Admin
 import BertE.Lemmas.PlanPr
 import BertE.Drv.C20
+import BertE.Lemmas.CloseC20Ex
 /-
 C20 — admin jobs keep the repository well-formed or do nothing.
 
@@ -575,5 +576,102 @@ example : (deleteQueues (exRepo true)).outcome = .success ∧ (deleteQueues (exR
 example : QueuesWF [(.hotfix 4 2 17, [7]), (.dev 4 (some 3), [9, 8]), (.dev 5 (some 1), [10, 9, 8])] ∧
     queuedPrs [(.hotfix 4 2 17, [7]), (.dev 4 (some 3), [9, 8]), (.dev 5 (some 1), [10, 9, 8])] = [7, 8, 9, 10] :=
   ⟨⟨by decide, by decide, by decide, by decide⟩, by decide⟩
+
+end BertE.C20
+
+/-! ### the queue collection of a reachable state (work package Close) -/
+
+namespace BertE.C20
+open BertE.Git BertE.Flow BertE.Admin
+
+/-- **C20 (the collection read from the heads is the bookkeeping's)** — in every state that satisfies the
+    strengthened invariant `Close.InvV` (every reachable state: `Close.close_stepV_inv`), without two queue-integration
+    branches of one version on the same commit (`Close.NoTies`), the queue collection the admin jobs compute from the
+    heads holds, for each version that has a queue branch, exactly the pull requests the robot queued on it, newest
+    first. `KeysNodup`: one branch per name (`qintsOf` walks every pair of the association list, a shadowed one
+    included; the ref maps of the model are built by `RefMap.set`, which keeps the names distinct, but `Inv` does not
+    say so). -/
+theorem C20_queues_of_inv (s : Sys) (h : BertE.Close.InvV s) (hnt : BertE.Close.NoTies s) (hk : KeysNodup s.remote) :
+    queuesOf s.g s.remote = (queueKeys s.remote).map fun d => (d, BertE.Select.idsOn s d) :=
+  BertE.Close.close_queuesOf_eq h hnt hk
+
+/-- **C20 (`QueuesWF` is an invariant)** — the hypothesis of `C20_resubmit_order_partial` and
+    `C20_create_no_queued_partial` holds of every state that satisfies the strengthened invariant, has no tie and one
+    branch per name — PROVIDED the sort of the keys leaves the greatest development queue as the last non-hotfix key
+    (`hlast`). That proviso cannot be dropped: `C20_queuesWF_counterexample`. The statement without it,
+      `theorem C20_queuesWF_of_inv (s : Sys) (h : InvV s) (hnt : NoTies s) : QueuesWF (queuesOf s.g s.remote)`,
+    is false in the model (and, for `hlast`, in the Python: `compare_queues` is not transitive when a hotfix, a
+    stabilization and a development queue share major.minor). -/
+theorem C20_queuesWF_of_inv_partial (s : Sys) (h : BertE.Close.InvV s) (hnt : BertE.Close.NoTies s)
+    (hk : KeysNodup s.remote)
+    (hlast : ∀ l, lastDev (queuesOf s.g s.remote) = some l → ∀ g, BertE.Select.gDev s = some g →
+      l.1 = BertE.Select.devDest g) :
+    QueuesWF (queuesOf s.g s.remote) :=
+  BertE.Close.close_queuesWF h hnt hk hlast
+
+/-- `C20_queues_of_inv`, `C20_queuesWF_of_inv_partial`: the hypotheses hold of the state with two queued pull
+    requests of `Lemmas/SelectEx.lean`, on which the collection is the one stated -/
+example : BertE.Close.InvV BertE.Select.exSys ∧ BertE.Close.NoTies BertE.Select.exSys ∧
+    KeysNodup BertE.Select.exSys.remote ∧
+    queuesOf BertE.Select.exSys.g BertE.Select.exSys.remote = [(.dev 4 (some 3), [1]), (.dev 5 (some 1), [2, 1])] ∧
+    (∀ l, lastDev (queuesOf BertE.Select.exSys.g BertE.Select.exSys.remote) = some l →
+      ∀ g, BertE.Select.gDev BertE.Select.exSys = some g → l.1 = BertE.Select.devDest g) ∧
+    QueuesWF (queuesOf BertE.Select.exSys.g BertE.Select.exSys.remote) := by
+  have hk : KeysNodup BertE.Select.exSys.remote := by unfold KeysNodup; decide
+  have hnt : BertE.Close.NoTies BertE.Select.exSys := by decide
+  have hlast : ∀ l, lastDev (queuesOf BertE.Select.exSys.g BertE.Select.exSys.remote) = some l →
+      ∀ g, BertE.Select.gDev BertE.Select.exSys = some g → l.1 = BertE.Select.devDest g := by decide
+  exact ⟨BertE.Close.close_exSys_invV, hnt, hk, by decide, hlast,
+    C20_queuesWF_of_inv_partial _ BertE.Close.close_exSys_invV hnt hk hlast⟩
+
+/-- **C20 (exactly the queued pull requests, in queue order — on the reachable states)** —
+    `C20_resubmit_order_partial` with its `QueuesWF` and `Nodup` hypotheses discharged by the invariant: when the
+    job's clone mirrors a state `s` of the system model (`hg`, `hh`), `queued_prs` holds exactly the pull requests that
+    have a queue-integration branch, each once, and for every queue its pull requests oldest first. Same proviso
+    `hlast` as `C20_queuesWF_of_inv_partial` (the second conjunct does not depend on it). -/
+theorem C20_resubmit_order_inv_partial (s : Sys) (h : BertE.Close.InvV s) (hnt : BertE.Close.NoTies s)
+    (hk : KeysNodup s.remote)
+    (hlast : ∀ l, lastDev (queuesOf s.g s.remote) = some l → ∀ g, BertE.Select.gDev s = some g →
+      l.1 = BertE.Select.devDest g)
+    (st : Repo) (hg : st.g = s.g) (hh : st.heads = s.remote) :
+    (∀ p, p ∈ queuedPrs (queuesOf st.g st.heads) ↔ Queued st.heads p) ∧
+    (queuedPrs (queuesOf st.g st.heads)).Nodup ∧
+    (∀ e ∈ queuesOf st.g st.heads, e.2.reverse.Sublist (queuedPrs (queuesOf st.g st.heads))) := by
+  apply C20_resubmit_order_partial st
+  · rw [hg, hh]; exact BertE.Close.close_queuesWF h hnt hk hlast
+  · rw [hg, hh]; exact BertE.Close.close_lastDev_nodup h hnt hk
+
+/-- `C20_resubmit_order_inv_partial` on the state with two queued pull requests: both are re-submitted, oldest first -/
+example : queuedPrs (queuesOf BertE.Select.exSys.g BertE.Select.exSys.remote) = [1, 2] ∧
+    (∀ p, p ∈ queuedPrs (queuesOf BertE.Select.exSys.g BertE.Select.exSys.remote) ↔
+      Queued BertE.Select.exSys.remote p) :=
+  ⟨by decide,
+   (C20_resubmit_order_inv_partial _ BertE.Close.close_exSys_invV (by decide) (by unfold KeysNodup; decide) (by decide)
+      ⟨BertE.Select.exSys.g, BertE.Select.exSys.remote, [], true⟩ rfl rfl).1⟩
+
+/-- **Known finding (candidate)**: the proviso `hlast` fails on a reachable state. hotfix/5.1.0, stabilization/5.1.2 and
+    development/5.1 exist; pull request 1 is queued on the stabilization branch (and development/5.1), 2 on the hotfix
+    branch, 3 on development/5.1. The state satisfies the strengthened invariant, has no tie and one branch per name;
+    the keys are discovered in the order 5.1, 5.1.0, 5.1.2 and the sort by `compare_queues` (hotfix = development,
+    hotfix = stabilization on major.minor, stabilization < development) leaves them so: the last non-hotfix queue is the
+    stabilization queue, the collection is not `QueuesWF`, and `queued_prs` — what `rebuild_queues` re-submits — is
+    `[2, 1]`: pull request 3, which has a queue-integration branch, is lost. -/
+theorem C20_queuesWF_counterexample :
+    BertE.Close.InvV BertE.Close.close_cxSys ∧ BertE.Close.NoTies BertE.Close.close_cxSys ∧
+    KeysNodup BertE.Close.close_cxSys.remote ∧
+    queuesOf BertE.Close.close_cxSys.g BertE.Close.close_cxSys.remote =
+      [(.dev 5 (some 1), [3, 1]), (.hotfix 5 1 0, [2]), (.stab 5 1 2, [1])] ∧
+    ¬ QueuesWF (queuesOf BertE.Close.close_cxSys.g BertE.Close.close_cxSys.remote) ∧
+    queuedPrs (queuesOf BertE.Close.close_cxSys.g BertE.Close.close_cxSys.remote) = [2, 1] ∧
+    Queued BertE.Close.close_cxSys.remote 3 := by
+  refine ⟨BertE.Close.close_cxSys_invV, BertE.Close.close_cxSys_noTies, BertE.Close.close_cxSys_keysNodup,
+    BertE.Close.close_cxSys_queues, ?_, ?_, ⟨.dev 5 (some 1), "feature/c", 4, by decide⟩⟩
+  · rw [BertE.Close.close_cxSys_queues]
+    intro hw
+    have := hw.vertical (.dev 5 (some 1), [3, 1]) (by decide) rfl (.stab 5 1 2, [1]) (by decide)
+    revert this
+    decide
+  · rw [BertE.Close.close_cxSys_queues]
+    decide
 
 end BertE.C20
